@@ -114,6 +114,16 @@ pub fn main() {
                     Err(e) => json!({"harness_error": format!("prepare {}: {}", dir, e)}),
                 }
             },
+            // give up root for good (the child exits after its requests): what follows runs as uid/gid 65534
+            "drop_privileges" => {
+                let r = unsafe {
+                    let a = libc::setgroups(0, std::ptr::null());
+                    let b = libc::setgid(65534);
+                    let c = libc::setuid(65534);
+                    (a, b, c, libc::geteuid())
+                };
+                json!({"ok": r.3})
+            },
             "abs_std_nocwd" => {
                 let dir = req["dir"].as_str().unwrap_or("/nonexistent");
                 let prep = std::fs::create_dir_all(dir).and_then(|_| std::env::set_current_dir(dir)).and_then(|_| std::fs::remove_dir(dir));
